@@ -28,11 +28,13 @@ def H(alg: SV, content: SV) -> SV:
 from pyvc.types import TKey, TList, TSeq, TSet, TTuple, canon  # noqa: E402
 from specs.records import HashInfo, Meta  # noqa: E402
 
-FileSystem = TRef("FileSystem", fields=dict(protocol=TStr, jobs=TInt))
+FileSystem = TRef("FileSystem", fields=dict(protocol=TStr, jobs=TInt, PARAM_CHECKSUM=TStr, sep=TStr))
 # objs: the abstract view of a store = the set of object ids present (as HashInfo(hash_name, oid))
 HashFileDB = TRef(
     "HashFileDB",
-    fields=dict(fs=FileSystem, path=TStr, hash_name=TStr, read_only=TBool, objs=TSet(HashInfo), cache_types=TList(TStr)),
+    fields=dict(fs=FileSystem, path=TStr, hash_name=TStr, read_only=TBool, objs=TSet(HashInfo), cache_types=TList(TStr),
+                # ghost: number of removals of things under the store root that are not objects (legacy unpacked dirs)
+                nonobj_removals=TInt),
     qualname="dvc_data.hashfile.db:HashFileDB",
 )
 LocalHashFileDB = TRef("LocalHashFileDB", fields={}, qualname="dvc_data.hashfile.db.local:LocalHashFileDB", bases=("HashFileDB",))
